@@ -232,7 +232,7 @@ def cr_case(draw, tier="quick"):
     d = draw(st.sampled_from([2, 2, 3]))
     pars = [list(p) for p in draw(st.permutations(PARS))[:4]]
     return {"d": d, "A": draw(C.hpoint(d, 6)), "B": draw(C.hpoint(d, 6)), "V": draw(C.hpoint(d, 6)), "pars": pars, "m": draw(Z.params(9)), "mclass": draw(st.sampled_from(Z.MCLASSES)),
-            "form": draw(st.sampled_from(["points", "from_point", "lines"] if d == 2 else ["points"]))}
+            "form": draw(st.sampled_from(["points", "from_point", "lines"] if d == 2 else ["points", "lines"])), "vinf": draw(st.sampled_from([False, False, True]))}
 
 
 def run_cr(c):
@@ -259,9 +259,17 @@ def run_cr(c):
     if form == "points":
         args0, args1 = P, [t * p for p in P]
         kw0 = kw1 = {}
+    elif d == 3:
+        # four concurrent coplanar lines of 3-space through V (a finite vertex or, for a pencil of parallel lines, one at infinity)
+        if c.get("vinf"):
+            V = V[:-1] + [Fraction(0)]
+        if X.rank([A, B, V]) < 3:
+            raise Skip("vertex on the line")
+        ls = [Line(Z.plucker_dual([int(x) for x in V], [int(x) for x in p])) for p in pts]
+        args0, args1 = ls, [t * l for l in ls]
+        kw0 = kw1 = {}
+        form = "lines3" + (":vertex-at-infinity" if c.get("vinf") else "")
     else:
-        if d != 2:
-            raise Skip("viewpoint forms are 2D")
         if X.rank([A, B, V]) < 3:
             raise Skip("viewpoint on the line")
         Vp = Point(f2(V))
@@ -333,7 +341,7 @@ LAWS = [
         "contains before = contains after = exact truth value", shard=400),
     Law("quadric", lambda tier: quad_case(tier), run_quad, nontrivial, lambda c: [f"d{c['d']}", c["cls"]] + (["queried-before-transformed"] if c.get("used") else []), {"quick": 800, "thorough": 20000},
         "point on/off quadric, tangent hyperplane, is_tangent before and after", shard=300),
-    Law("crossratio", lambda tier: cr_case(tier), run_cr, nontrivial, lambda c: [c["form"], f"d{c['d']}"], {"quick": 1000, "thorough": 20000},
+    Law("crossratio", lambda tier: cr_case(tier), run_cr, nontrivial, lambda c: [c["form"], f"d{c['d']}"] + (["pencil-of-parallel-lines"] if c["d"] == 3 and c["form"] == "lines" and c.get("vinf") else []), {"quick": 1000, "thorough": 20000},
         "cross ratio of four collinear points / lines / from a viewpoint: exact value and invariance", shard=400),
     Law("polytope_vertices", lambda tier: poly_case(tier), run_poly, nontrivial, lambda c: [f"{c['kind']}{c['d']}"] + (["queried-before-transformed"] if c.get("used") else []), {"quick": 500, "thorough": 10000},
         "transformed polytope has the images of vertices/edges/faces in order", shard=300),
